@@ -6,16 +6,42 @@ PID = "C11"
 PROP_V = ["Props/Properties_C11.v"]
 GEN_MODULES = ["Consts", "Sites"]
 REPLAY_HINT = "VRT_SEED=<seed> [VRT_NOBJ=<n>] [VRT_KIND=<k>] _work/h/waitn_mix"
-PARTIAL = []
+PARTIAL = ["C11_mutex is proved as C11_mutex_partial (unlock runs after every enqueue call and lock runs iff unlock ran); the design's stronger "
+           "reading 'unlock only if ALL enqueues succeeded' is refuted (C11_mutex_refuted): when the LAST object turns out ready at its enqueue, "
+           "nsync_wait_n still releases and re-acquires the mutex (needless but within the property: the mutex is held again on return)",
+           "the waitable objects are abstract in WaitNModel (their own models are NoteModel / CounterModel / CvModel)"]
+TRUSTED_BASE = ["Model/WaitNModel.v control skeleton and abstract objects: hand-written, validated by two-pass lock-step replay (replay/waitn_replay.ml)"]
 
 
 def run(tier, seed):
+    import mu_common, vrt_runner
     res = {"violations": [], "broken": [], "coverage": {}}
+    base = seed * 100000
+    tie = {}
+    exe, err = vrt_runner.build("waitn_mix")
+    replayer, err2 = mu_common.build_replayer("waitn_replay")
+    if exe is None or replayer is None:
+        res["broken"].append({"what": "harness or replayer build failed", "detail": err or err2})
+    else:
+        steps, sites, mism, n = 0, {}, [], 0
+        for env, k in (({}, 300 if tier == "quick" else 3000), ({"VRT_KIND": 2}, 150 if tier == "quick" else 1500), ({"VRT_NOBJ": 5}, 150 if tier == "quick" else 1500)):
+            rr = mu_common.replay_many(replayer, exe, range(base + 1, base + 1 + k), env)
+            s2, st2, mm = mu_common.replay_summary(rr)
+            steps += s2
+            n += k
+            mism += mm
+            for a, b in st2.items():
+                sites[a] = sites.get(a, 0) + b
+        for m in mism[:3]:
+            res["broken"].append({"what": "correspondence: WaitNModel and the real wait.c (+objects) disagree in lock-step", "scenario": "waitn_mix",
+                                  "seed": m["seed"], "detail": m["replay"]})
+        tie = {"traces_validated_against_impl": n - len(mism), "lockstep_model_steps": steps, "model_events_hit": sites}
     specs = [("waitn_mix", {}, 5000, 100000), ("waitn_mix", {"VRT_NOBJ": 5}, 1500, 30000), ("waitn_mix", {"VRT_NOBJ": 1}, 1000, 20000)]
     cov = scen_common.run_scenarios(res, specs, tier, seed, {"C11"} | scen_common.LIVENESS | scen_common.CRASHES | scen_common.MEMORY)
     cov["rule"] = ("waitn_mix: one or two nsync_wait_n callers over 1..5 objects of mixed kinds (heap path for > 4), with/without a mutex, "
                    "deadlines past/future/never, actors notifying / decrementing / signalling; returned index checked against object state, "
                    "count only at/after the deadline, unlock/lock callbacks balanced and the lock held on return, every object made ready "
                    "again after return (leftover registration => dead-stack / freed-heap access); non-trivial = runs with semaphore sleeps")
+    cov.update(tie)
     res["coverage"] = cov
     return res
